@@ -102,6 +102,8 @@ def call(src, ants, cfg, act, rate):
         ants[act["a"] - 1].streams[act["p"] - 1].update_noise(stats_calc_num_samples=act["m"])
     elif name == "UpdateNoiseBg":
         src.bg_streams[act["p"] - 1].update_noise(stats_calc_num_samples=act["m"])
+    elif name == "Peek":
+        ants[act["a"] - 1].streams[act["p"] - 1].get_samples(act["n"])
     elif name == "BadRequest":
         bad = {"negative": -1, "fractional": 2.5}.get(act["kind"], act["n"])
         try:
